@@ -3,6 +3,7 @@
 W=$1
 export GOFLAGS=-mod=mod GOPROXY=off
 cd $W || exit 2
+git checkout -q -- . && git apply SEED/patch.diff || { echo "patch does not apply cleanly"; exit 1; }
 mv SEED /tmp/seed_aside_$$
 go build ./... || { echo "BUILD FAILS"; mv /tmp/seed_aside_$$ SEED; exit 1; }
 OKS=$(go test -vet=off -count=1 ./... 2>&1 | grep -c "^ok")
@@ -11,7 +12,7 @@ echo "test packages ok: $OKS (baseline 14)"
 DEMO=$(ls SEED/demo/run.sh 2>/dev/null)
 if [ -z "$DEMO" ]; then echo "no run.sh: $(ls SEED/demo)"; exit 0; fi
 sh SEED/demo/run.sh >/tmp/demo_with.txt 2>&1; W1=$?
-git stash -q -- internal main.go 2>/dev/null || git stash -q
+git apply -R SEED/patch.diff
 sh SEED/demo/run.sh >/tmp/demo_without.txt 2>&1; W0=$?
-git stash pop -q
+git apply SEED/patch.diff
 echo "demo exit with change: $W1 ; without change: $W0"
